@@ -27,7 +27,8 @@
        test, an unknown name, a string), an argument list the specification refuses (wrong type, wrong order,
        unknown tag, surplus argument, bad value of a tag's parameter: legal = LReject) at a token of one of
        the arguments, '{' after a command that takes no block, a command name where ';' is missing; `elsif` / `else` after a
-       command they may not follow (at the closing brace);
+       command they may not follow (at the closing brace); malformed string lists in the arguments of an action,
+       an empty test list, the end of the text with a block open or a command unfinished;
    The converse (soundness of acceptance with respect to the RFC 5228 generic grammar) is NOT proved in
    general: the rejection classes above and the structural theorem C01_accept_final_state are, and the executable oracle
    harness/sieve_spec.py (generic grammar + frozen signatures) is compared with the implementation on the
@@ -401,13 +402,126 @@ Theorem C01_misplaced_follower_rejected :
 Proof. exact RejectFacts.misplaced_follower_rejected. Qed.
 Print Assumptions C01_misplaced_follower_rejected.
 
+(* legal arguments of an action leave the machine at that command (the positive counterpart of C01_args_stop) *)
+Theorem C01_args_run :
+  forall (T : tables) (args : list argument) (st : pstate) (f : frame) 
+    (rest : list frame) (fN : frame),
+  at_args st f rest ->
+  Forall arg_ok args ->
+  feed f args (p_loaded st) = FOk fN ->
+  exists st' : pstate,
+    steps T st (flat_map arg_toks args) = Some st' /\
+    at_args st' fN rest /\ p_loaded st' = p_loaded st /\ p_brackets st' = p_brackets st.
+Proof. exact RejectFacts.args_run. Qed.
+Print Assumptions C01_args_run.
+
+(* in the arguments of an action: an empty string list, a missing comma, a comma before the closing bracket, a list that is not closed -- rejected at the token that cannot continue the list *)
+Theorem C01_malformed_string_list_rejected :
+  forall T : tables,
+  twf_tables T = true ->
+  forall (text : bytes) (pre : list token) (tn : token) (a0toks : list token) 
+    (lb : token) (ltoks : list token) (t : token) (rest : list token) 
+    (L : list bytes) (prev : option bytes) (k : nat) (d : cmddef) 
+    (args0 : list argument) (am em : list (bytes * aval)) (items : list bytes) 
+    (tc : bool),
+  wf_prefix T (map strip_pos pre) L prev k ->
+  fst (lex text) = pre ++ tn :: a0toks ++ lb :: ltoks ++ t :: rest ->
+  t_kind tn = TIdentifier ->
+  get_command_instance T L (t_val tn) = inl d ->
+  flat_def d = true ->
+  wf_def d = true ->
+  fixed_arity d = true ->
+  Forall arg_ok args0 ->
+  map strip_pos a0toks = flat_map arg_toks args0 ->
+  legal d L args0 = LIncomplete am em ->
+  strip_pos lb = mk TLeftBracket [91%N] ->
+  map strip_pos ltoks = open_items items tc ->
+  Forall (fun s : bytes => utf8_valid s = true) items ->
+  (items = [] -> tc = false) ->
+  not_comment (t_kind t) = true ->
+  (if match items with
+      | [] => true
+      | _ :: _ => tc
+      end
+   then kind_mem (t_kind t) [TString] = false
+   else kind_mem (t_kind t) [TComma; TRightBracket] = false) ->
+  parse T text = Reject EExpected (t_pos t) (Datatypes.length (t_val t)).
+Proof. exact RejectFacts.malformed_string_list_rejected. Qed.
+Print Assumptions C01_malformed_string_list_rejected.
+
+(* after `if anyof (` anything but the name of a test (an empty test list, a string): rejected at that token *)
+Theorem C01_empty_test_list_rejected :
+  forall T : tables,
+  twf_tables T = true ->
+  forall (text : bytes) (pre : list token) (tn tl lp t : token) (rest : list token)
+    (L : list bytes) (prev : option bytes) (k : nat) (d : cmddef) 
+    (a : argdef) (dl : cmddef),
+  wf_prefix T (map strip_pos pre) L prev k ->
+  fst (lex text) = pre ++ tn :: tl :: lp :: t :: rest ->
+  t_kind tn = TIdentifier ->
+  get_command_instance T L (t_val tn) = inl d ->
+  d_type d = CControl ->
+  d_accept_children d = true ->
+  d_args d = [a] ->
+  is_t1 a = true ->
+  t_kind tl = TIdentifier ->
+  get_command_instance T L (t_val tl) = inl dl ->
+  d_type dl = CTest ->
+  d_expected_first dl = Some [TLeftParen] ->
+  iscomplete (new_frame dl (at_of a)) None = false ->
+  t_kind lp = TLeftParen ->
+  not_comment (t_kind t) = true ->
+  kind_mem (t_kind t) [TIdentifier] = false ->
+  parse T text = Reject EExpected (t_pos t) (Datatypes.length (t_val t)).
+Proof. exact RejectFacts.empty_test_list_rejected. Qed.
+Print Assumptions C01_empty_test_list_rejected.
+
+(* the text ends while blocks are open: rejected at the end of the text *)
+Theorem C01_unclosed_block_rejected :
+  forall T : tables,
+  twf_tables T = true ->
+  forall (text : bytes) (L : list bytes) (prev : option bytes) (k : nat),
+  wf_prefix T (map strip_pos (fst (lex text))) L prev (S k) ->
+  snd (lex text) = None ->
+  exists ll : nat, parse T text = Reject EEndExpected (Datatypes.length text) ll.
+Proof. exact RejectFacts.unclosed_block_rejected. Qed.
+Print Assumptions C01_unclosed_block_rejected.
+
+(* the text ends inside a command (missing semicolon): rejected at the end of the text *)
+Theorem C01_unfinished_command_rejected :
+  forall T : tables,
+  twf_tables T = true ->
+  forall (text : bytes) (pre : list token) (tn : token) (a0toks : list token) 
+    (L : list bytes) (prev : option bytes) (k : nat) (d : cmddef) 
+    (args0 : list argument) (fN : attach -> frame),
+  wf_prefix T (map strip_pos pre) L prev k ->
+  fst (lex text) = pre ++ tn :: a0toks ->
+  snd (lex text) = None ->
+  t_kind tn = TIdentifier ->
+  get_command_instance T L (t_val tn) = inl d ->
+  flat_def d = true ->
+  Forall arg_ok args0 ->
+  map strip_pos a0toks = flat_map arg_toks args0 ->
+  (forall at_ : attach, feed (new_frame d at_) args0 L = FOk (fN at_)) ->
+  exists (e : perr) (ll : nat),
+    (e = EEndExpected \/ e = EEndUnfinished) /\
+    parse T text = Reject e (Datatypes.length text) ll.
+Proof. exact RejectFacts.unfinished_command_rejected. Qed.
+Print Assumptions C01_unfinished_command_rejected.
+
+(* non-vacuity: `require ["fileinto" "envelope"];` rejected at the second string (with ex_empty_list, ex_trailing_comma, ex_empty_test_list, ex_unclosed_block, ex_unfinished_command) *)
+Theorem C01_malformed_list_examples :
+  parse gen_tables (bs "require [""fileinto"" ""envelope""];") = Reject EExpected 20 10.
+Proof. exact RejectExamples.ex_missing_comma. Qed.
+Print Assumptions C01_malformed_list_examples.
+
 (* non-vacuity: `stop; else { stop; } keep;` rejected with 'must follow' at the closing brace, from the theorem *)
 Theorem C01_misplaced_else_example :
   parse gen_tables (bs "stop; else { stop; } keep;") = Reject EMustFollow 19 1.
 Proof. exact RejectExamples.ex_misplaced_else. Qed.
 Print Assumptions C01_misplaced_else_example.
 
-(* non-vacuity on the generated tables (one of twelve examples in sieve/RejectExamples.v: prefix `require ["fileinto"]; if size :over 100K {`) *)
+(* non-vacuity on the generated tables (one of eighteen examples in sieve/RejectExamples.v: prefix `require ["fileinto"]; if size :over 100K {`) *)
 Theorem C01_reject_examples :
   let text := bs (px_text ++ "foo ""x""; }") in
   parse gen_tables text = Reject (EUnknownCommand (bs "foo")) 46 3 /\
